@@ -115,6 +115,10 @@ class Ctx(object):
     def assume(self, c):
         if isinstance(c, bool):
             c = z3.BoolVal(c)
+        if z3.is_and(c) and c.num_args() > 1:
+            for x in c.children():
+                self.assume(x)
+            return
         self.pc.append(c)
         # the feasibility solver only prunes; it may ignore hard hypotheses (quantifiers,
         # recursive functions) since fewer hypotheses only make it prune less
